@@ -15,7 +15,10 @@ Record case := mk_case {
   c_kind : N;          (* 0 free through the renter API (indices as the caller gave them; the
                           model normalises like rpc.go), 1 free on the raw wire (indices as
                           sent), 2 append, 3 sector-roots listing, 4 no RPC: the size of a
-                          range proof according to core's RangeProofSize (law check) *)
+                          range proof according to core's RangeProofSize (law check),
+                          5 account-paid RPC (read / verify / write a sector): c_args =
+                          [account balance before; cost], c_has = [request valid; HasSector],
+                          c_ok = the renter was served, c_out = [account balance after] *)
   c_roots : list N;    (* stored roots before *)
   c_args : list N;     (* free: indices; append: sector roots; listing: [offset; length] *)
   c_has : list bool;   (* append: whether the harness had uploaded the sector (HasSector) *)
@@ -108,8 +111,22 @@ Definition check_law (c : case) : bool :=
   | _ => false
   end.
 
+Definition check_acct (c : case) : bool :=
+  match c_args c, c_has c, c_out c with
+  | [bal; cost], [valid; has], [bal'] =>
+      let h0 := host_of (c_roots c) in
+      let h := mk_host (h_roots h0) (h_rev h0) bal in
+      let '(s, outs) := exec_outs Copied (init h) [ENew; EMsg (MReq (AcctReq valid has cost))] [] in
+      N.eqb (h_account (hs_host s)) bal'
+      && bool_decide (h_roots (hs_host s) = c_after c)
+      && N.eqb (r_num (h_rev (hs_host s))) 1
+      && Bool.eqb (match outs with [OPaid] => true | _ => false end) (c_ok c)
+  | _, _, _ => false
+  end.
+
 Definition check_case (c : case) : bool :=
   if N.eqb (c_kind c) 4 then check_law c else
+  if N.eqb (c_kind c) 5 then check_acct c else
   match request_of c with
   | None => false
   | Some r =>
